@@ -143,6 +143,11 @@ class DataFrame:
             entry = dict(entry)
         if isinstance(self._schema, RelationSchema):
             self._schema.validate(entry)
+            # the schema object is shared with its other users and may have been edited since the
+            # frame was made (a column renamed or replaced); the record was validated against the
+            # columns as they are now, so the row is laid out by those names as well
+            if self._row_factory._fields != tuple(str(c.name) for c in self._schema.columns):
+                self._row_factory = Row.create_class(self._schema)
         new_row = self._row_factory(entry)
         # size the row before storing it, so a row that cannot be sized is not kept
         row_size = new_row.nbytes()
